@@ -324,6 +324,11 @@ func (w *world) runAccess(x *consumer, ctx context.Context) {
 				ambiguous = true
 			}
 		}
+		// a caller context that was cancelled before the callback returned wins over the callback's own result
+		if err != context.Canceled && x.cancelReq != 0 && x.cancelReq < last.end && err == last.err && !ambiguous {
+			c.Fail("C10.A3.cancellation-not-returned", "the caller's context was cancelled while invocation %d of the Access callback was running, but Access returned that invocation's result (%v) instead of context.Canceled", last.n, err)
+			return
+		}
 		if err == last.err && !ambiguous {
 			// the callback's own result: its value must not have been dropped before the callback returned
 			if last.rc != nil && !last.shared && last.rc.rel > 0 && last.rc.relAt < last.end {
